@@ -325,6 +325,15 @@ fn run_once(c: &FCase) -> FOut {
     let fixed_ptr = unsafe { arena.as_mut_ptr().add(G) };
     let mut sibling_check: Option<BytesMut> = None;
     let range_viol = Cell::new(false);
+    // taint oracle for out-of-bounds READS: every byte the liars ever hand out is an odd value <= 0x8f (or comes from the
+    // honest helper slices); a result byte such as the allocator's guard (0xa5) or poison (0xdd) value proves that the
+    // crate read memory no slice covered
+    let observed: std::cell::RefCell<Vec<u8>> = std::cell::RefCell::new(Vec::with_capacity(256)); // allocated outside the bracket
+    let obs = |b: &[u8]| {
+        let mut o = observed.borrow_mut();
+        let room = o.capacity() - o.len();
+        o.extend_from_slice(&b[..b.len().min(room)]);
+    };
     let consumer = c.consumer as usize % CONSUMERS.len();
     let (r, _) = call(|| {
         let fixed: &mut [u8] = unsafe { std::slice::from_raw_parts_mut(fixed_ptr, 32) };
@@ -352,16 +361,16 @@ fn run_once(c: &FCase) -> FOut {
                 let mut l = Vec::new().limit(k);
                 l.put(liar(false));
             }
-            5 => drop(liar(false).get_u8()),
-            6 => drop(liar(false).get_u16()),
-            7 => drop(liar(false).get_u32_le()),
-            8 => drop(liar(false).get_u64()),
-            9 => drop(liar(false).get_u128()),
-            10 => drop(liar(false).get_uint(k % 9)),
-            11 => drop(liar(false).get_int_le(k % 9)),
-            12 => drop(liar(false).try_get_u32()),
-            13 => drop(liar(false).try_get_u128_le()),
-            14 => drop(liar(false).try_get_int(k % 9)),
+            5 => obs(&[liar(false).get_u8()]),
+            6 => obs(&liar(false).get_u16().to_le_bytes()),
+            7 => obs(&liar(false).get_u32_le().to_le_bytes()),
+            8 => obs(&liar(false).get_u64().to_le_bytes()),
+            9 => obs(&liar(false).get_u128().to_le_bytes()),
+            10 => obs(&liar(false).get_uint(k % 9).to_le_bytes()),
+            11 => obs(&liar(false).get_int_le(k % 9).to_le_bytes()),
+            12 => obs(&liar(false).try_get_u32().unwrap_or(0).to_le_bytes()),
+            13 => obs(&liar(false).try_get_u128_le().unwrap_or(0).to_le_bytes()),
+            14 => obs(&liar(false).try_get_int(k % 9).unwrap_or(0).to_le_bytes()),
             15 => {
                 let mut l = liar(false);
                 l.copy_to_slice(&mut fixed[..k.min(32)]);
@@ -370,7 +379,7 @@ fn run_once(c: &FCase) -> FOut {
                 let mut l = liar(false);
                 let _ = l.try_copy_to_slice(&mut fixed[..k.min(32)]);
             }
-            17 => drop(liar(false).copy_to_bytes(k)),
+            17 => obs(&liar(false).copy_to_bytes(k)),
             #[cfg(feature = "bstd")]
             18 => {
                 let l = liar(false);
@@ -382,7 +391,7 @@ fn run_once(c: &FCase) -> FOut {
                 }
                 let _ = total;
             }
-            19 => drop(liar(false).take(k).copy_to_bytes(k / 2)),
+            19 => obs(&liar(false).take(k).copy_to_bytes(k / 2)),
             #[cfg(feature = "bstd")]
             20 => {
                 let t = liar(true).take(k);
@@ -395,7 +404,7 @@ fn run_once(c: &FCase) -> FOut {
                 }
                 let _ = total;
             }
-            21 => drop(liar(false).take(k).get_u32()),
+            21 => obs(&liar(false).take(k).get_u32().to_le_bytes()),
             22 => {
                 let mut t = liar(false).take(k);
                 t.advance(k / 2);
@@ -604,6 +613,9 @@ fn run_once(c: &FCase) -> FOut {
     });
     let panicked = r.is_err();
     let mut viol: Option<(String, String)> = None;
+    if let Some(&b) = observed.borrow().iter().find(|&&b| b > 0x8f && b != 0xff) {
+        viol = Some(("out-of-bounds-read(tainted result)".into(), format!("a returned value contains the byte {:#04x}, which no slice handed out by the user impl contains (allocator guard = 0xa5, poison = 0xdd): the crate read outside the slice it was given", b)));
+    }
     if range_viol.get() {
         viol = Some(("view-outside-owner-memory".into(), "Bytes::from_owner returned a view that is not inside any slice the owner handed out (pointer of one as_ref call combined with the length of another)".into()));
     }
